@@ -302,6 +302,88 @@ def guard_term(g: Term) -> Term:
     return strip(g[1]) if g[2] else negate(g[1])
 
 
+# ----------------------------------------------------------------------------- value classes
+# qualname -> (fields, constant defaults, is-a-tuple, fields never re-assigned); set from Program.records()
+RECORDS: Dict[str, Tuple[Tuple[str, ...], Dict[str, Any], bool, frozenset]] = {}
+# method name -> {parameter: constant default}, for names that denote one signature in the whole package
+DEFAULTS: Dict[str, Dict[str, Any]] = {}
+
+
+# module-level constant lookup tables: global name -> {constant key: value term}
+CONST_TABLES: Dict[str, Dict[Any, Term]] = {}
+_OPERATOR = {"gt": ">", "ge": ">=", "lt": "<", "le": "<=", "eq": "==", "ne": "!=", "is_": "is", "is_not": "isnot"}
+
+
+def record_values(t: Any) -> Optional[Tuple[str, Dict[str, Term]]]:
+    """`C(a, b, x=c)` for a value class C of the package -> (C, {field: value})."""
+    if not (is_term(t) and t[0] == "call" and len(t) == 4 and is_term(t[1]) and t[1][0] == "glob" and t[1][1] in RECORDS):
+        return None
+    fields, defaults, _, _ = RECORDS[t[1][1]]
+    args, kws = t[2], t[3]
+    if len(args) > len(fields) or any(is_term(a) and a[0] in ("star", "star2") for a in args):
+        return None
+    vals: Dict[str, Term] = dict(zip(fields, args))
+    for k, v in kws:
+        if k not in fields or k in vals:
+            return None
+        vals[k] = v
+    for f in fields:
+        if f not in vals:
+            if f not in defaults:
+                return None
+            vals[f] = ("const", defaults[f])
+    return t[1][1], vals
+
+
+def _project(t: Term) -> Optional[Term]:
+    """One step of evaluation on a term whose parts are already normalised: field / index of a value-class
+    constructor, conditionals on a constant, explicit default arguments."""
+    k = t[0]
+    if k == "attr" and len(t) == 3:
+        b = strip(t[1]) if is_term(t[1]) and t[1][0] == "let" else t[1]
+        rv = record_values(b)
+        if rv is not None and t[2] in rv[1] and t[2] in RECORDS[rv[0]][3]:
+            return rv[1][t[2]]
+        if is_term(b) and b[0] == "phi" and len(b) == 4 and record_values(strip(b[2])) is not None and record_values(strip(b[3])) is not None:
+            x, y = _project(("attr", strip(b[2]), t[2])), _project(("attr", strip(b[3]), t[2]))
+            if x is not None and y is not None:
+                return ("phi", b[1], x, y)
+    elif k == "idx" and len(t) == 3 and is_term(t[2]) and t[2][0] == "const" and isinstance(t[2][1], int) and not isinstance(t[2][1], bool):
+        b = strip(t[1]) if is_term(t[1]) and t[1][0] == "let" else t[1]
+        rv = record_values(b)
+        if rv is not None and RECORDS[rv[0]][2]:
+            fields = RECORDS[rv[0]][0]
+            if -len(fields) <= t[2][1] < len(fields):
+                return rv[1][fields[t[2][1]]]
+        if is_term(t[1]) and t[1][0] == "glob" and t[1][1] in CONST_TABLES and t[2][1] in CONST_TABLES[t[1][1]]:
+            return CONST_TABLES[t[1][1]][t[2][1]]
+    elif k == "idx" and len(t) == 3 and is_term(t[1]) and t[1][0] == "glob" and t[1][1] in CONST_TABLES:
+        tab = CONST_TABLES[t[1][1]]
+        key = t[2]
+        if is_term(key) and key[0] == "const" and key[1] in tab:
+            return tab[key[1]]
+        if is_term(key) and key[0] == "call" and key[1] == ("glob", "bool") and len(key[2]) == 1 and True in tab and False in tab:
+            return ("phi", key[2][0], tab[True], tab[False])        # a table indexed by a truth value: a conditional
+        if is_term(key) and key[0] in ("cmp", "not") and True in tab and False in tab:
+            return ("phi", key, tab[True], tab[False])
+    elif k in ("phi", "ifexp") and len(t) == 4 and is_term(t[1]) and t[1][0] == "const":
+        return t[2] if t[1][1] else t[3]
+    elif k == "call" and len(t) == 4 and is_term(t[1]) and t[1][0] == "phi" and len(t[1]) == 4:
+        # calling one of two functions: one of two calls
+        a, b = ("call", t[1][2], t[2], t[3]), ("call", t[1][3], t[2], t[3])
+        return ("phi", t[1][1], _project(a) or a, _project(b) or b)
+    elif k == "call" and len(t) == 4 and is_term(t[1]) and t[1][0] == "glob" and t[1][1].startswith("operator.") and t[1][1][9:] in _OPERATOR and len(t[2]) == 2 and not t[3]:
+        return canon_cmp(_OPERATOR[t[1][1][9:]], t[2][0], t[2][1])
+    elif k == "not" and len(t) == 2 and is_term(t[1]) and t[1][0] == "const":
+        return ("const", not t[1][1])
+    elif k == "call" and len(t) == 4 and t[3] and is_term(t[1]) and t[1][0] == "attr" and t[1][2] in DEFAULTS:
+        d = DEFAULTS[t[1][2]]
+        kws = tuple((n, v) for n, v in t[3] if not (n in d and is_term(v) and v == ("const", d[n])))
+        if kws != t[3]:
+            return ("call", t[1], t[2], kws)
+    return None
+
+
 # ----------------------------------------------------------------------------- comprehension fusion
 def _bind_pattern(pat: Term, val: Term) -> Optional[Dict[Term, Term]]:
     """Substitution that binds an iteration pattern to a value (None if the shapes do not match)."""
@@ -309,6 +391,9 @@ def _bind_pattern(pat: Term, val: Term) -> Optional[Dict[Term, Term]]:
     if pat[0] == "var":
         return {pat: val}
     v = strip(val)
+    rv = record_values(v) if pat[0] == "tuple" else None
+    if rv is not None and RECORDS[rv[0]][2]:
+        v = ("tuple", tuple(rv[1][f] for f in RECORDS[rv[0]][0]))      # a NamedTuple is the tuple of its fields
     if pat[0] == "tuple" and v[0] == "tuple" and len(pat[1]) == len(v[1]):
         out: Dict[Term, Term] = {}
         for p, x in zip(pat[1], v[1]):
@@ -324,6 +409,15 @@ def _plain_bag(t: Any) -> Optional[Term]:
     t = strip(t)
     if is_term(t) and t[0] == "bag" and len(t) >= 2 and all(is_term(e) and e[0] == "elem" for e in t[1]):
         return t
+    if is_term(t) and t[0] == "phi" and len(t) == 4:
+        # one collection or the other (`if not xs: return []` before the collection is built): the elements of
+        # each under the branch condition
+        a, b = _plain_bag(t[2]), _plain_bag(t[3])
+        if a is not None and b is not None:
+            return ("bag", tuple(("elem", e[1], (("g", t[1], True),) + tuple(e[2]), e[3]) for e in a[1])
+                    + tuple(("elem", e[1], (("g", t[1], False),) + tuple(e[2]), e[3]) for e in b[1]), a[2] if len(a) > 2 else "list")
+    if is_term(t) and t[0] == "call" and t[1][0] == "glob" and t[1][1] in ("list", "tuple") and len(t[2]) == 1 and not t[3]:
+        return _plain_bag(t[2][0])            # an order-preserving copy
     if is_term(t) and t[0] == "tuple" and len(t) == 2 and isinstance(t[1], tuple) and t[1] and not any(is_term(x) and x[0] == "star" for x in t[1]):
         return ("bag", tuple(("elem", x, (), ()) for x in t[1]), "tuple")      # a tuple display that is iterated over
     return None
@@ -350,11 +444,22 @@ def fuse_elem(el: Term) -> List[Term]:
                 out += fuse_elem(new)
                 continue
             b = _bind_pattern(it[1], inner[1])
+            in_guards, in_iters = tuple(inner[2]), tuple(inner[3])
+            if b is None and strip(it[1])[0] == "tuple" and iv[0] == "var":
+                # the collected value is itself the variable of an inner iteration (`for d in ds: out.append(d)` ...
+                # `for a, b in out`): unpacking it later is unpacking it there
+                hit = [j for j, x in enumerate(in_iters) if is_term(x) and x[0] == "it" and strip(x[1]) == iv]
+                if len(hit) == 1:
+                    j = hit[0]
+                    ren = {iv: strip(it[1])}
+                    in_iters = in_iters[:j] + (("it", strip(it[1])) + tuple(in_iters[j][2:]),) + tuple(replace(in_iters[j + 1:], ren))
+                    in_guards = tuple(replace(in_guards, ren))
+                    b = {}
             if b is None:
                 ok = False
                 break
             rest = replace(tuple(iters[k + 1:]), b)
-            new = ("elem", replace(val, b), tuple(inner[2]) + tuple(replace(tuple(guards), b)), tuple(iters[:k]) + tuple(inner[3]) + tuple(rest))
+            new = ("elem", replace(val, b), in_guards + tuple(replace(tuple(guards), b)), tuple(iters[:k]) + in_iters + tuple(rest))
             out += fuse_elem(new)
         if ok:
             return out
@@ -374,6 +479,10 @@ def fuse(t: Any) -> Any:
     if not isinstance(t, tuple) or not t:
         return t
     t = tuple(fuse(x) for x in t)
+    if is_term(t):
+        r = _project(t)
+        if r is not None:
+            return r
     if is_term(t) and t[0] == "bag" and len(t) >= 2 and isinstance(t[1], tuple) and all(is_term(e) and e[0] == "elem" and len(e) == 4 for e in t[1]):
         elems: List[Term] = []
         for e in t[1]:
